@@ -17,6 +17,19 @@ func (c *ctx) loaderHistory() {
 			c.vs("C16/failed-load-published", c.p.Scen.Format, "a load that failed (%s) nevertheless published a configuration", e.S)
 		}
 	}
+	for _, e := range c.r.Events {
+		switch e.Kind {
+		case "watch-published-differs":
+			c.vs("C16/watcher-published-differs-from-fresh", e.S, "step %d: after a change event (sibling %q) and a tick the watcher published a configuration that is not what a fresh loader publishes for the configured file:\n  %s", e.A, e.S, e.Bytes)
+		case "watch-published-unloadable":
+			c.v("C16/failed-load-published", "step %d: the watcher published a configuration although the configured file does not load (%s)", e.A, e.S)
+		case "watch-missed-change":
+			c.v("C16/watcher-missed-change", "step %d: the configured file was rewritten with a loadable document, the change event was delivered and the tick passed, yet nothing was published", e.A)
+		}
+	}
+	if c.p.Scen.Loader != nil && c.p.Scen.Loader.Watcher {
+		return
+	}
 	for _, s := range c.r.Loader.Steps {
 		if (s.OldErr == "") != (s.FreshErr == "") {
 			c.vs("C16/load-outcome-differs", c.p.Scen.Format, "step %d (%d bytes): long-lived %s loader says %q, a fresh loader says %q", s.Step, s.Bytes, c.p.Scen.Format, s.OldErr, s.FreshErr)
